@@ -18,6 +18,7 @@ package c13wake
 import (
 	"fmt"
 	"sort"
+	"strings"
 	"sync"
 	"time"
 
@@ -36,6 +37,10 @@ type CaseAnyway struct {
 	Consumers []int  `json:"consumers"`      // drain: items each consumer takes (sums to the number of items)
 	SleepUs   int    `json:"sleep_us"`       // retry pause handed to Add*Anyway
 	Frees     int    `json:"frees"`          // close: PopAnyway calls after the Close
+	// Entries (drain): which add entry points the producers use: "" = Add*Anyway only; "plain" = the ordinary add
+	// (unbounded lanes only: Cap 0); "mixed" = per item, by its number: Add*Anyway (plain if unbounded) / prior add /
+	// - on the two-lane queue - the other lane
+	Entries string `json:"entries,omitempty"`
 }
 
 var anywayKinds = []string{qadapt.KindQ, qadapt.KindAsync, qadapt.KindMux, qadapt.KindMQ}
@@ -49,6 +54,10 @@ func GenAnyway(t *rapid.T) CaseAnyway {
 	if c.Mode == "close" {
 		c.Frees = rapid.IntRange(1, c.Cap).Draw(t, "frees")
 		return c
+	}
+	c.Entries = rapid.SampledFrom([]string{"", "mixed", "mixed", "plain"}).Draw(t, "entries")
+	if c.Entries == "plain" || (c.Entries == "mixed" && rapid.Bool().Draw(t, "unbounded")) {
+		c.Cap = 0
 	}
 	total := 0
 	for i, k := 0, rapid.IntRange(1, 5).Draw(t, "np"); i < k; i++ {
@@ -71,7 +80,7 @@ func GenAnyway(t *rapid.T) CaseAnyway {
 
 func ExecAnyway(c CaseAnyway) *vkit.Result {
 	res := &vkit.Result{}
-	if c.Cap < 1 || c.Cap > 16 || c.SleepUs < 1 || c.SleepUs > 20000 || len(c.Producers) > 8 || len(c.Consumers) > 8 {
+	if c.Cap < 0 || c.Cap > 16 || (c.Cap == 0 && (c.Mode != "drain" || c.Entries == "")) || (c.Entries == "plain" && c.Cap != 0) || c.SleepUs < 1 || c.SleepUs > 20000 || len(c.Producers) > 8 || len(c.Consumers) > 8 {
 		res.Skip("malformed-config")
 		return res
 	}
@@ -85,6 +94,7 @@ func ExecAnyway(c CaseAnyway) *vkit.Result {
 		return res
 	}
 	sched := vkit.NewSched()
+	sched.FullStacks = true
 	switch c.Mode {
 	case "close":
 		if c.Frees < 1 || c.Frees > c.Cap {
@@ -183,8 +193,22 @@ func ExecAnyway(c CaseAnyway) *vkit.Result {
 		sched.Go(fmt.Sprintf("producer-%d", pi), func() {
 			<-start
 			for j := 0; j < n; j++ {
-				if o := q.AddAnyway(lane, pi*1000+j); o != qadapt.Accepted {
-					note("producer %d: Add*Anyway of item %d returned %v on an open queue", pi, j, o)
+				add, ln := q.AddAnyway, lane
+				if c.Cap == 0 {
+					add = q.Add // nothing to wait for on an unbounded lane
+				}
+				if c.Entries == "mixed" {
+					switch (pi + j) % 3 {
+					case 1:
+						add = q.AddPrior // exempt from the bound
+					case 2:
+						if c.Kind == qadapt.KindMQ && c.Cap == 0 {
+							ln = qadapt.LaneCtrl + qadapt.LaneReq - lane // the other lane (both unbounded)
+						}
+					}
+				}
+				if o := add(ln, pi*1000+j); o != qadapt.Accepted {
+					note("producer %d: add of item %d returned %v on an open queue", pi, j, o)
 					return
 				}
 			}
@@ -206,8 +230,36 @@ func ExecAnyway(c CaseAnyway) *vkit.Result {
 		})
 	}
 	close(start)
-	sched.MustQuiesce()
+	// Producers inside Add*Anyway poll with time.Sleep while their lane is full. If every busy goroutine is such a
+	// poller and the consumers are parked in Pop, nothing can ever change: the lane stays full because nobody takes,
+	// and a failing add wakes nobody. That state is a verdict (consumers asleep beside a full queue), not a wait.
+	handedOut := func() int { mu.Lock(); defer mu.Unlock(); return len(consumed) }
+	last := -1
+	_, stuck, qerr := sched.QuiesceUnless(func(busy, parked []vkit.GState) bool {
+		for _, g := range busy {
+			if g.State != "sleep" || !strings.Contains(g.Stack, "Anyway") {
+				return false
+			}
+		}
+		consumersParked := false
+		for _, g := range parked {
+			if strings.Contains(g.Stack, ".Pop") {
+				consumersParked = true
+			}
+		}
+		n := handedOut()
+		same := n == last
+		last = n
+		return consumersParked && same
+	})
+	if qerr != nil {
+		vkit.Infra("%v", qerr)
+	}
 	defer q.Close()
+	if stuck {
+		return res.Failf("wake-up", "%s (capacity %d): %d producers push %d items through Add*Anyway, consumers take them with Pop; %d items were handed out, now every consumer that is left sleeps in Pop while the producers poll a full lane forever (a consumer sleeps beside a non-empty queue)",
+			c.Kind, c.Cap, len(c.Producers), total, handedOut())
+	}
 	for _, op := range sched.Ops() {
 		if p := op.Panic(); p != nil {
 			return res.Failf("panic", "%s panicked: %v", op.Name, p)
@@ -241,12 +293,22 @@ func ExecAnyway(c CaseAnyway) *vkit.Result {
 		res.Class("two-or-more-producers-beyond-capacity")
 	}
 	res.Class("drain-through-anyway")
+	if c.Entries != "" {
+		res.Class("drain-entries-" + c.Entries)
+	}
 	return res
 }
 
 var PartAnyway = &vkit.Part[CaseAnyway]{
 	Property: Property, Name: "anyway-producers",
-	Rule:  "rapid: bounded pipe queues (q, async, mux, mq req/ctrl lane; capacity 1-3), retry pause 1 us - 2 ms. drain: 1-5 producers push 1-4 items each through Add*Anyway, 1-3 consumers take all of them with the blocking Pop; at quiescence everybody must have finished and the items handed out equal the items accepted. close: lane filled to capacity, one producer inside Add*Anyway, Close, then 1..cap PopAnyway: the producer's add must come back closed and the drain yields exactly the pre-filled items. Non-trivial: >= 2 producers and more items than capacity, or the close mode; distinct = distinct case JSON",
+	Rule:  "rapid: bounded pipe queues (q, async, mux, mq req/ctrl lane; capacity 1-3), retry pause 1 us - 2 ms. drain: 1-5 producers push 1-4 items each through Add*Anyway - or, per item, through the ordinary add (unbounded lanes), the prior add or the other lane of the two-lane queue - and 1-3 consumers take all of them with the blocking Pop, nobody closes; at quiescence everybody must have finished and the items handed out equal the items accepted (consumers asleep while every remaining producer polls a full lane is decided as a lost wake-up, not waited for). close: lane filled to capacity, one producer inside Add*Anyway, Close, then 1..cap PopAnyway: the producer's add must come back closed and the drain yields exactly the pre-filled items. Non-trivial: >= 2 producers and more items than capacity, or the close mode; distinct = distinct case JSON",
 	Quick: 300, Thorough: 2000,
+	Gen: GenAnyway, Exec: ExecAnyway,
+}
+
+var PartAnywayRace = &vkit.Part[CaseAnyway]{
+	Property: Property, Name: "race-anyway-producers",
+	Rule:  PartAnyway.Rule + " (binary built with -race)",
+	Quick: 150, Thorough: 1000,
 	Gen: GenAnyway, Exec: ExecAnyway,
 }
